@@ -1,12 +1,11 @@
 /-
 C05 — the call level of a reconstruction session: `Ptychography.reconstruct(...)` as the code processes its
-arguments, branch by branch, INCLUDING the branches that raise part-way, and the transient `.grad` state that no
-checkpoint carries.  Core Lean only.
+arguments, branch by branch, INCLUDING the branches that raise part-way.  Core Lean only.
 
 Anchors: diffractive_imaging/ptychography.py (`reconstruct`, `reset_recon`), ptychography_base.py (`reset_recon`,
 `constraints` setter, `batch_size` setter), ptychography_opt.py (`optimizer_params` / `scheduler_params` setters,
-`set_optimizers`, `set_schedulers`, `zero_grad_all`, `step_optimizers`), core/ml/optimizer_mixin.py (`set_optimizer`,
-`set_scheduler`, `remove_optimizer`, `reset_optimizer`, `zero_optimizer_grad`), constraints.py (`add_constraint`),
+`set_optimizers`, `set_schedulers`), core/ml/optimizer_mixin.py (`set_optimizer`,
+`set_scheduler`, `remove_optimizer`, `reset_optimizer`), constraints.py (`add_constraint`),
 dataset_models.py (`_set_targets`).
 
 A call that raises returns the state it leaves behind and `true`; the caller carries on with that state.
@@ -33,15 +32,16 @@ def freshBase {θ μ σ : Type} (m : ModelSt θ μ σ) : Nat :=
          | some o => max (maxId o.params) (maxId (o.state.map (·.1)))
          | none => 0)
 
-/-- new tensors (identity shifted by `b`) holding the recorded initial values -/
-def renew {θ : Type} (b : Nat) : List (PId × θ) → List θ → List (PId × θ)
-  | [], _ => []
-  | (p, x) :: ps, [] => (p + b, x) :: renew b ps []
-  | (p, _) :: ps, x0 :: xs => (p + b, x0) :: renew b ps xs
+/-- the recorded initial values in new tensors (identity shifted by `b`) — or, where `keep` says so, written into
+the existing tensor -/
+def renew {θ : Type} (b : Nat) : List (PId × θ) → List θ → List Bool → List (PId × θ)
+  | [], _, _ => []
+  | (p, x) :: ps, xs, keep =>
+      ((if keep.headD false then p else p + b), xs.headD x) :: renew b ps xs.tail keep.tail
 
 /-- `obj_model.reset()` / `probe_model.reset()` / `dset.reset()`: the optimizer is NOT touched -/
 def resetParams {θ μ σ : Type} (m : ModelSt θ μ σ) : ModelSt θ μ σ :=
-  { m with params := renew (freshBase m) m.params m.init }
+  { m with params := renew (freshBase m) m.params m.init m.keepId }
 
 /-! ### optimizer / scheduler management of one model (`OptimizerMixin`) -/
 
@@ -267,51 +267,5 @@ def Recon.nonempty {θ μ σ : Type} (r : Recon θ μ σ) : Prop :=
 
 /-- what a checkpoint needs and every call keeps: optimizers bound to the live parameters -/
 def Recon.swf {θ μ σ : Type} (r : Recon θ μ σ) : Prop := r.wf ∧ r.nonempty
-
-/-! ### transient gradients (`.grad`): in memory only, never in a checkpoint -/
-
-/-- a live object: the checkpointable state plus the `.grad` of every parameter tensor (absent = `None`) -/
-structure Live (θ γ μ σ : Type) where
-  recon : Recon θ μ σ
-  grads : List ((String × PId) × γ)
-
-/-- `optimizer.zero_grad()` (set_to_none): the gradients of the tensors in the optimizer's param group -/
-def zeroGrads {γ μ : Type} (key : String) (o : Option (Optim μ)) (g : List ((String × PId) × γ)) : List ((String × PId) × γ) :=
-  match o with
-  | none => g
-  | some o => g.filter (fun e => !(e.1.1 == key && o.params.contains e.1.2))
-
-/-- `loss.backward()`: every parameter that receives a gradient accumulates it into `.grad` -/
-def accumulate {θ γ : Type} (add : γ → γ → γ) (gr : String → PId → Option γ) (key : String) :
-    List (PId × θ) → List ((String × PId) × γ) → List ((String × PId) × γ)
-  | [], g => g
-  | (p, _) :: ps, g =>
-      match gr key p with
-      | none => accumulate add gr key ps g
-      | some d =>
-          accumulate add gr key ps
-            (setKey (key, p) (match lookup (key, p) g with | some old => add old d | none => d) g)
-
-/-- the gradient `optimizer.step()` reads for parameter `p` of model `key`: its `.grad` -/
-def liveStep {θ γ μ σ : Type} (S : Step θ γ μ σ) (g : List ((String × PId) × γ)) : Step θ γ μ σ :=
-  { S with grad := fun _ key p => lookup (key, p) g }
-
-/-- one iteration on the live object, as the batch loop is written: `zero_grad_all()` (only models that HAVE an
-optimizer), forward / `backward` (accumulating), `step_optimizers()`, bookkeeping.  `late = true` is the other
-order a refactoring might choose — gradients cleared right after the step, nothing cleared before `backward`. -/
-def iterLive {θ γ μ σ : Type} (S : Step θ γ μ σ) (add : γ → γ → γ) (late : Bool) (l : Live θ γ μ σ) : Live θ γ μ σ :=
-  let r := l.recon
-  let v := r.view
-  let zero := fun g => zeroGrads "dataset" r.dataset.opt (zeroGrads "probe" r.probe.opt (zeroGrads "object" r.object.opt g))
-  let g0 := if late then l.grads else zero l.grads
-  let g1 := accumulate add (S.grad v) "dataset" r.dataset.params
-              (accumulate add (S.grad v) "probe" r.probe.params (accumulate add (S.grad v) "object" r.object.params g0))
-  let S' : Step θ γ μ σ := { liveStep S g1 with loss := fun _ => S.loss v }
-  { recon := iter S' r, grads := if late then zero g1 else g1 }
-
-/-- a checkpoint of a live object holds its `recon`; what comes back has no gradients -/
-def Live.reload {θ γ μ σ : Type} (rc : List PId → Optim μ → Option (Optim μ)) (pk : Pickle (ModelSt θ μ σ))
-    (l : Live θ γ μ σ) : Option (Live θ γ μ σ) :=
-  (fromFile pk (save rc pk l.recon)).map (fun r => { recon := r, grads := [] })
 
 end QuantemModel.Checkpoint
